@@ -4,8 +4,8 @@ quick check: tools/seed_recheck.py [name-prefix].  Prints one line per seed: CAU
 because a later fix rewrote the lines)."""
 import json, os, subprocess, sys, shutil
 HERE = os.path.dirname(os.path.dirname(os.path.abspath(__file__)))
-WT = '/tmp/wt-recheck'
-pref = sys.argv[1] if len(sys.argv) > 1 else ''
+WT = os.environ.get('SEED_WT', '/tmp/wt-recheck')
+pref = tuple(sys.argv[1].split(',')) if len(sys.argv) > 1 else ('',)       # one or more name prefixes, comma separated
 
 
 def sh(cmd, **kw):
